@@ -13,7 +13,7 @@ import json, os, re, subprocess, sys, time, tempfile, shutil, hashlib, select, s
 ROOT = os.path.dirname(os.path.abspath(__file__))
 BUILD = os.path.join(ROOT, 'build')
 TMP = os.path.join(BUILD, 'tmp')
-EVID = os.path.join(ROOT, 'evidence')
+EVID = os.environ.get('VERIF_EVIDENCE_DIR', os.path.join(ROOT, 'evidence'))
 REPLAYS = os.path.join(ROOT, 'replays')
 KNOWN = os.path.join(ROOT, 'known_findings.json')
 
